@@ -248,9 +248,13 @@ impl<const M: usize> Sim<M> {
     }
 
     pub fn v(&mut self, prop: &'static str, msg: String) {
+        // (robust against being called in arena mode: the message is re-created in user mode)
+        let _u = crate::ledger::enter_user();
+        let m2 = String::from(msg.as_str());
+        drop(msg);
         if self.viol.len() < 32 {
             let op = self.opi;
-            self.viol.push(Violation { prop, op, msg });
+            self.viol.push(Violation { prop, op, msg: m2 });
         }
     }
 
